@@ -576,6 +576,10 @@ def exits_as_try(v):
     none = ("ctor", "Option::None", ())
     keep, opts = [], []
     for conds, val in v[1]:
+        if conds != ("fallthrough",) and val == none and len(conds) == 2 and conds[1][0][:1] == ("arm",) and conds[1][0][2] == "_" and conds[1][1] is True \
+                and conds[0][0][:1] == ("arm",) and conds[0][0][2] == "Option::Some(_)" and conds[0][1] is False and conds[0][0][1] == conds[1][0][1]:
+            opts.append(conds[0][0][1])       # `let Some(x) = o else { return None }`
+            continue
         if conds != ("fallthrough",) and val == none and len(conds) == 1:
             c, pol = conds[0][0], conds[0][1]
             if isinstance(c, tuple) and c[:2] == ("iflet", "Option::Some(_)") and pol is False:
@@ -592,6 +596,8 @@ def exits_as_try(v):
         if not isinstance(x, tuple):
             return x
         if x[:2] == ("iflet", "Option::Some(_)") and len(x) == 3 and x[2] in opts:
+            return ("lit", True)
+        if x[:1] == ("arm",) and len(x) == 3 and x[1] in opts and x[2] == "Option::Some(_)":
             return ("lit", True)
         if x[:1] == ("proj",) and len(x) == 3 and x[1] in opts and x[2][:1] == (("Option::Some", "0"),):
             rest = x[2][1:]
